@@ -33,6 +33,8 @@ def stores(t):
 def run(repo, rep):
     from ..pitfalls import memo_rule as _memo_rule
     _memo_rule(repo, rep, 'C09', 'C09.Z1')
+    from ..pitfalls import log_rule as _log_rule
+    _log_rule(repo, rep, 'C09', 'C09.Z2')
     hier = exc_hierarchy(repo)
     acc = repo.cls('asceprovider', 'AssociationAcceptor')
     f = acc.find_method('accept')
